@@ -163,6 +163,7 @@ class CGen:
             return "{" + ",".join(self.init(f, e) for f, e in zip(t.fields, op.args)) + "}"
         raise IRUnsupported("initializer for %r" % t)
     def need_global(self, name):
+        name = self.mod.aliases.get(name, name)
         if name in self.gseen: return
         self.gseen.add(name)
         if name in self.mod.funcs:
@@ -392,6 +393,7 @@ class CGen:
 
     def fname(self, name):
         """C name of a function: externals (declared only, or skipped) get the model prefix m_"""
+        name = self.mod.aliases.get(name, name)
         if name in self.mod.funcs and name not in self.skip: return cid(name)
         return "m_" + cid(name)
     def xty(self, t):
